@@ -38,7 +38,7 @@ for pid in ALL:
 
 manifest = {
     "version": 1,
-    "setup_cmd": "cd /verif/driver && CARGO_NET_OFFLINE=true cargo +nightly build --release --offline",
+    "setup_cmd": "/verif/bin/setup",
     "hooks": {
         "guard": "none (static analysis reads /repo's source as is; no hooks or instrumentation were added)",
         "enable": "not applicable: checks run `cargo +nightly check` on /repo's working tree through the pennefacts RUSTC_WORKSPACE_WRAPPER (cfg A: default features; cfg B: --features alpha,llvm-sys with tools/llvm-shim on PATH)",
